@@ -121,9 +121,7 @@ def validate(seed, tier):
     for _ in range(20):
         nu, nv = int(rng.integers(1, 7)), int(rng.integers(1, 7))
         edges = [[int(u), int(v)] for u in range(nu) for v in range(nv) if rng.random() < 0.4]
-        f = concrete.CHECKS['bipartite'](dict(nu=nu, nv=nv, edges=edges))
-        if f:
-            raise runner.HarnessError(f'concrete check fails on the unchanged algorithm? {f}')
+        runner.concrete_check('bipartite', dict(nu=nu, nv=nv, edges=edges))
         n += 1
     return dict(random_graphs_checked_concretely=n)
 
